@@ -28,3 +28,5 @@ pub mod ser;
 pub mod cv;
 #[cfg(kani)]
 pub mod e2e;
+#[cfg(kani)]
+pub mod c15;
